@@ -1,4 +1,5 @@
 import Deltio.Model.System
+import Deltio.Lemmas.Timer
 /-
   C15 — Pull batches respect their size limit and are empty only when allowed.
   Part 1 (all inputs): the number of messages one pull turn hands out.
@@ -92,5 +93,47 @@ example : pullCount (i32AsU16 65537) 5000 = 1 := by decide
 example : pullCount (i32AsU16 2147483647) 70000 = 4464 := by decide
 example : pullCount (i32AsU16 1000) 70000 = 1000 := by decide
 example : pullCount (i32AsU16 (-1)) 70000 = 4464 := by decide
+
+/-! ### The empty-response rule at system level -/
+
+theorem SidsUnique_of_SysInv {sys : Sys} (h : SysInv sys) : SidsUnique sys := by
+  have := h.sids
+  unfold Sys.ssh at this
+  simp only [List.map_map] at this
+  unfold SidsUnique
+  have h2 : sys.subs.map (·.sid) = List.map ((fun (e : SSh) => e.sid) ∘ fun e => ⟨e.sid, e.name, e.topicId, e.push⟩) sys.subs := by
+    apply List.map_congr_left; intro x _; rfl
+  rw [h2]
+  exact this.imp (fun h => Nat.ne_of_lt h)
+
+/-- C15, the empty-response rule at system level, for every state reached by any history
+    (`SubsOk_all`, `SysInv_all`) in which no StreamingPull is open and fewer than 10^6 deliveries are
+    outstanding when the wait begins: a Pull without `return_immediately` on an existing
+    subscription answers with an empty response only if the clock has reached its wait limit —
+    otherwise it returns the messages that became available (at once after the expiry re-check,
+    or when the earliest expiry timer of the subscription fires). -/
+theorem C15_blocking_pull (sys : Sys) (raw : Bytes) (mx : Int) (n : Name) (e : SubEnt)
+    (hp : parseSubName raw = some n) (hf : sys.findSub n = some e)
+    (hs : sys.streams = []) (hok : SubsOk sys) (hinv : SysInv sys)
+    (hfuel : (sys.subTurn e.sid (.pull (i32AsU16 mx) sys.clock)).1.totalOut ≤ 1000000)
+    (hempty : (sys.rpc (.pull raw mx false)).2 = .msgs []) :
+    ceilMs (sys.clock + pullLimitUs) + sys.clock % 1000 ≤ (sys.rpc (.pull raw mx false)).1.clock := by
+  have hu := SidsUnique_of_SysInv hinv
+  have hmem : e ∈ sys.subs := List.mem_of_find?_eq_some hf
+  have hid : ∃ e', sys.findSubById e.sid = some e' := ⟨e, find_unique sys.subs hu e hmem⟩
+  refine blocking_pull_settled sys raw mx n e hp hf hid hs hok ?_ hempty
+  intro t
+  apply advanceTo_settled
+  · rw [subTurn_streams]; exact hs
+  · exact SubsOk_subTurn hok _ _ (by simp)
+  · unfold SidsUnique; rw [sids_subTurn]; exact hu
+  · exact hfuel
+
+/-! Non-vacuity: the conclusion's two cases on the concrete system `exSys` (Lemmas/SysSub.lean). -/
+example : (exSys.rpc (.pull exS1 10 false)).2 = .msgs [] ∧ (exSys.rpc (.pull exS1 10 false)).1.clock = 300000000 := by decide
+example :
+    let s1 := (exSys.rpc (.publish exT [([1], [])])).1
+    let s2 := (s1.rpc (.pull exS1 10 true)).1          -- leased until 10 s
+    (s2.rpc (.pull exS1 10 false)).2 ≠ .msgs [] ∧ (s2.rpc (.pull exS1 10 false)).1.clock = 10000000 := by decide
 
 end Deltio
